@@ -92,6 +92,32 @@ IVAL_ASSUME = [
 ]
 
 
+def after_abuse_groups(rng, tier, kinds):
+    """ill-formed interval values and texts (a list with a nil entry, a reversed interval, what a refused parse hands back
+    next to its error — printed, normalized, intersected under recover) and then, in the same process and on the same
+    goroutine, valid requests: nothing such a call leaves behind (a pooled buffer, a scratch slice, a memo) may reach them"""
+    groups = []
+    bad_texts = ["1-2 x", "3 2-1", "1-2 3-", "5 6 7-3]", "-(1-2 4", "", " ", "1-2  3", "9-8", "1-2] 3-4] zz", "0 1 2 3 4 5 6 7 8 9 x"]
+    for _ in range(6 if tier == "quick" else 40):
+        g = []
+        for _ in range(40 if tier == "quick" else 120):
+            ls = [clustered_list(rng, 5, big=rng.random() < 0.3) for _ in range(rng.randint(1, 3))]
+            g.append("ival abuse %s %s" % (hexs(rng.choice(bad_texts)), ";".join(ivs(l) for l in ls)))
+            for _ in range(rng.randint(1, 4)):
+                l = clustered_list(rng, 6, big=rng.random() < 0.3)
+                k = rng.choice(kinds)
+                if k == "text":
+                    g.append(rng.choice(["ival showlist " + ivs(l), "ival show " + iv(l[0]),
+                                         "ival parselist " + hexs(" ".join(_show(t) for t in l)), "ival human " + ivs(l)]))
+                elif k == "norm":
+                    g.append("ival norm " + ivs(l))
+                else:
+                    l2 = clustered_list(rng, 6, big=False)
+                    g.append("ival inter " + ivs(l) + ";" + ivs(l2))
+        groups.append(g)
+    return groups
+
+
 class _C05(Spec):
     pid = "C05"
     lean_module = "Starcal.Props.C05"
@@ -118,6 +144,7 @@ class _C05(Spec):
         sts.append(Stream("norm-random", rreqs))
         # long lists (65 .. 400 intervals): beyond every fixed-size fast path one might write
         sts.append(Stream("norm-long", ["ival norm " + ivs(big_list(rng)) for _ in range(300 if tier == "quick" else 3000)]))
+        sts.append(Stream("ival-after-ill-formed-calls", None, groups=after_abuse_groups(rng, tier, ("norm",))))
         return sts
 
     def exhaustive(self, tier):
@@ -197,6 +224,7 @@ class _C04(Spec):
             rng.shuffle(ops)
             lreqs.append("ival inter " + ";".join(ivs(o) for o in ops))
         sts.append(Stream("inter-long", lreqs))
+        sts.append(Stream("ival-after-ill-formed-calls", None, groups=after_abuse_groups(rng, tier, ("inter", "norm"))))
         return sts
 
     def exhaustive(self, tier):
@@ -294,6 +322,7 @@ class _C13(Spec):
         hreqs += ["ival human " + ivs(big_list(rng, 300)) for _ in range(60)]
         hreqs += ["ival showlist " + ivs(sorted(big_list(rng, 300))) for _ in range(40)]
         sts.append(Stream("humanize-extract", hreqs))
+        sts.append(Stream("ival-after-ill-formed-calls", None, compare=cmpf, groups=after_abuse_groups(rng, tier, ("text",))))
         return sts
 
     def exhaustive(self, tier):
